@@ -313,6 +313,13 @@ func (c *Ctx) describePiece(f *ssa.Function, v ssa.Value) string {
 					if _, n, ok := fieldOfLoad(root); ok {
 						rs = n
 					}
+					if cl := callOf(root); cl != nil {
+						if bi, ok := cl.Call.Value.(*ssa.Builtin); ok && bi.Name() == "len" && len(cl.Call.Args) == 1 {
+							if _, n, ok := fieldOfLoad(cl.Call.Args[0]); ok {
+								rs = "len(." + n + ")" // field name only: independent of what the owner is called
+							}
+						}
+					}
 					puts = append(puts, fmt.Sprintf("%s%s[%s:%s](%s %s)", end, bits, lo, hi, strings.Join(ts, "<-"), rs))
 				}
 			}
